@@ -30,7 +30,7 @@ import terms
 
 PID = "C13"
 PROPS = ["PfModel.Props.C13", "PfModel.Props.C13Async", "PfModel.Props.C13Store", "PfModel.Props.C13Kinds", "PfModel.Props.C13Proto",
-         "PfModel.Props.C13File", "PfModel.Props.C13Snap", "PfModel.Props.C13Gens", "PfModel.Props.C13Owed"]
+         "PfModel.Props.C13File", "PfModel.Props.C13Snap", "PfModel.Props.C13Gens", "PfModel.Props.C13Owed", "PfModel.Props.C13Fair"]
 DRIVER = "C13"
 RULE = ("mapgen pipelines (1-4 functions, mapped / reducing / internal-axis / generator / plain, 1-3 generations) and pipegen DAGs "
         "(1-5 functions, tuple outputs, renames, defaults, bound); for every invocation of the failure-free run (function, call "
